@@ -11,6 +11,10 @@ CHECKS = {
          "Generated-case search: reader expressions (depth<=4) x operation histories (read/read-at/seek/clone/readfull, byte views, writers) compared step by step with an independent []bit model; the Read64/Write64/ReverseBytes64 grid (firstBit 0..15 x nBits 0..64 x 84 patterns) is enumerated exhaustively on every run; aheadreadseeker is additionally driven alone against bytes.Reader with short reads and a transient fault. No proof of absence: assurance is 'no disagreement in N generated histories'.",
          "Trusted: the 60-line reference model in props/c01, rapid's generators. Out-of-range seeks beyond the end may fail or succeed; byte-view relative seeks only on byte-multiple sources.",
          "DESIGN.md 2/C01"),
+ "C20": ("exhaustive history enumeration + rapid state machine against a stack model; -race stress; in-process REPL interrupt",
+         "Generated-history search: every valid history of push/interrupt/finish/re-finish/stop up to length 8 (quick) or 10 (thorough), depth<=5, is enumerated exhaustively against a stack model with a harness-owned synchronous trigger (ctx.Err() of every context after every step); longer histories by a rapid state machine; the concurrent part (interrupter goroutine vs pusher/finisher) runs under the race detector and can only sample interleavings; the REPL part interrupts a nested in-process REPL while its innermost evaluation runs.",
+         "Trusted: the stack model (30 lines), Go's race detector. The Go scheduler is not owned: schedule-dependent faults are found by repetition only. Finishing an inner level after its enclosing level finished is outside the domain. Liveness only via a 60 s watchdog on an evaluation that can end by cancellation only.",
+         "DESIGN.md 2/C20"),
 }
 
 NOT_YET = {}
